@@ -380,7 +380,12 @@ impl State {
         // try get a current item to complete - must be non-virtual right most one
         // value must be present here, and can fail only for non-utf8 values
         // can't do much completing with non-utf8 values since bpaf needs to print them to stdout
-        let (cur, lit) = items.next()?;
+        // without such an item (no words at all, or none that is valid utf8) there is nothing
+        // to offer, but it is still a completion request and not a reason to run the program
+        let (cur, lit) = match items.next() {
+            Some(item) => item,
+            None => return Some(String::new()),
+        };
 
         // For cases like "-k=val", "-kval", "--key=val", "--key val"
         // last value is going  to be either Arg::Word or Arg::ArgWord
